@@ -87,7 +87,7 @@ QUOTING_TO_CSV_QUOTE_MAP = {
 _VALID_QUOTE_CHARACTERS = sorted("!\"#$%&'*+-/:;=?\\^_`~")
 _VALID_ESCAPE_CHARACTERS = ['"', "\\"]
 _VALID_DECIMAL_SEPARATORS = [".", ","]
-_VALID_THOUSANDS_SEPARATORS = [",", ".", ""]
+_VALID_THOUSANDS_SEPARATORS = [",", ".", " ", ""]
 _VALID_FORMATS = [FORMAT_DELIMITED, FORMAT_EXCEL, FORMAT_FIXED, FORMAT_ODS]
 _VALID_QUOTING = sorted(QUOTING_TO_CSV_QUOTE_MAP.keys())
 
